@@ -17,8 +17,8 @@ def on_disagreement(c, binary, ln, il, ml, d):
 
     def impl_of(cand):
         line = "%s %s 1 %s" % (cont, cmpn, " ".join(cand))
-        rc, impl, err = c.run_impl(binary, ["c01"], line + "\n")
-        return line, (impl[0] if impl else "<no output rc=%s>" % rc)
+        impl = rb.run_impl(c, binary, [line], timeout=60)
+        return line, impl[0]
 
     line, a = impl_of(ops)                      # stride 1: every state is observed
     w = rb.walk_history(cont, cmpn, ops, a)
@@ -45,7 +45,7 @@ def on_disagreement(c, binary, ln, il, ml, d):
                   "how": "echo '%s' | <harness> c01   (record: ret;len;keys;vals;shape;sizefield;parentflag;calls)" % line[:3000]})
         return
     recs = rb.records(a)
-    panicked = any(r[0] == "panic" for r in recs)
+    panicked = any(rb.is_abort(r[0]) for r in recs)
     sig = "C02:%s:%s:%s" % (cont, "panic" if panicked else "differs", rb.FIELD[fld] if not panicked else opn)
     if any(len(v) > 2 and v[2] == sig for v in c.violations) or len(c.violations) >= 6:
         return
@@ -58,10 +58,13 @@ def on_disagreement(c, binary, ln, il, ml, d):
     mini = ops
     if differs(ops):
         d1 = rb.first_diff(cont, a, c.run_model("rb", line + "\n")[0], rb.WHITE)
-        mini = rb.minimise(ops[:d1[0] + 1], differs, budget=160)
+        # a hang / crash loses the whole line: the culprit may be any op, keep them all
+        mini = rb.minimise(ops if a.startswith("<") else ops[:d1[0] + 1], differs, budget=160)
     l2, a2 = impl_of(mini)
     m2 = c.run_model("rb", l2 + "\n")[0]
-    d2 = rb.first_diff(cont, a2, m2, rb.WHITE) or (i, fld, ri, rm)
+    d2 = rb.first_diff(cont, a2, m2, rb.WHITE)
+    if d2 is None:                       # not reproducible at stride 1: report the original observation
+        mini, l2, d2 = ops, ln, (i, fld, ri, rm)
     j, fl, ra, rm2 = d2
     c.report(sig,
              "%s (comparator %s): %s — every state the walker could see is a valid red-black tree within the bound, but the %s "
